@@ -226,6 +226,12 @@ func (pConn *PFCPConn) handleSessionModificationRequest(msg message.Message) (me
 		return sendError(ErrNotFoundWithParam("PFCP session", "localSEID", localSEID))
 	}
 
+	// Work on copies of the rule lists: the stored session shares their backing arrays and
+	// must not change unless the request is accepted and stored.
+	session.pdrs = append(make([]pdr, 0, len(session.pdrs)+MaxItems), session.pdrs...)
+	session.fars = append(make([]far, 0, len(session.fars)+MaxItems), session.fars...)
+	session.qers = append(make([]qer, 0, len(session.qers)+MaxItems), session.qers...)
+
 	var fseidIP uint32
 
 	if smreq.CPFSEID != nil {
